@@ -283,7 +283,8 @@ def shape_has_param(sh):
 def replay_mono_program(kind):
     src = {'result-only': 'fn mk[T]() -> Vec[T] { vec_new() }\nfn main() -> unit { let a: Vec[int32] = mk(); let b: Vec[bool] = mk(); () }\n',
            'param': 'fn id[T](x: T) -> T { x }\nfn main() -> unit { let a = id(1); let b = id(true); () }\n',
-           'fn-result': 'fn run[A, B](f: (A) -> B, x: A) -> unit { () }\nfn s(x: int32) -> string { "a" }\nfn b(x: int32) -> bool { true }\nfn main() -> unit { let u = run(s, 1); let v = run(b, 1); () }\n'}[kind]
+           'fn-result': 'fn run[A, B](f: (A) -> B, x: A) -> unit { () }\nfn s(x: int32) -> string { "a" }\nfn b(x: int32) -> bool { true }\nfn main() -> unit { let u = run(s, 1); let v = run(b, 1); () }\n',
+           'crosswise': 'fn first[A, B](a: A, b: B) -> A { a }\nfn main() -> unit { let a = first(1, "s"); let b = first("s", 1); () }\n'}[kind]
     d = tempfile.mkdtemp(prefix='vf-c07-')
     try:
         open(os.path.join(d, 'main.gom'), 'w').write(src)
@@ -291,7 +292,7 @@ def replay_mono_program(kind):
     finally: shutil.rmtree(d, ignore_errors=True)
     txt = p.stdout
     import re as _re
-    gen = {'result-only': 'mk', 'param': 'id', 'fn-result': 'run'}[kind]
+    gen = {'result-only': 'mk', 'param': 'id', 'fn-result': 'run', 'crosswise': 'first'}[kind]
     insts = sorted(set(_re.findall(r'^fn (%s\w*)\(' % gen, txt, _re.M)))
     resid = [l for l in txt.splitlines() if _re.search(r'\b[TAB]\b', l) and l.startswith('fn ')]
     return len(insts) != 2 or bool(resid), 'goml `%s`: mono dump has the instances %s%s' % (src.replace('\n', ' | '), insts, (' and type parameters left in ' + resid[0]) if resid else '')
@@ -301,7 +302,7 @@ def ob_mono_instances(r, tier, seed, hash_symbolic=False):
     if hash_symbolic: W.hash_order = 'symbolic'
     TY = tt.find_adt(['tast', 'Ty'], 'compiler'); CE = tt.find_adt(['core', 'Expr'], 'compiler'); CF = tt.find_adt(['core', 'Fn'], 'compiler'); CFILE = tt.find_adt(['core', 'File'], 'compiler')
     PR = tt.find_adt(['common', 'Prim'], 'compiler'); MFN = [a for a in tt.by_name['MonoFn'] if a.crate == 'compiler'][0]
-    r.bounds = 'three programs with one generic function called at two different type arguments from main: the parameter occurs (a) only in the result type `fn mk[T]() -> Vec[T]`, (b) in a value parameter `fn id[T](x: T) -> T`, (c) only in the result of a function-typed parameter `fn run[A, B](f: (A) -> B, x: A)`'
+    r.bounds = 'three programs with one generic function called at two different type arguments from main: the parameter occurs (a) only in the result type `fn mk[T]() -> Vec[T]`, (b) in a value parameter `fn id[T](x: T) -> T`, (c) only in the result of a function-typed parameter `fn run[A, B](f: (A) -> B, x: A)`, (d) two parameters instantiated crosswise `fn first[A, B](a: A, b: B) -> A` at (int32, string) and (string, int32)'
     r.assumptions = ['names::ty_compact replaced by an injective stand-in', 'oracle: mono::mono emits exactly two instances of the generic function, with the two instantiated signatures, and no function of the output mentions a type parameter']
     def m_ty_compact(ex, a): return mkstr(json.dumps(shape(ex.deref(a[0]), TY), sort_keys=True).replace(' ', ''))
     W.stubs['ty_compact'] = m_ty_compact
@@ -311,7 +312,7 @@ def ob_mono_instances(r, tier, seed, hash_symbolic=False):
         generics = []          # the pipeline builds every top-level core::Fn with an empty `generics` list: genericity is read off the signature (fn_is_generic -> has_tparam)
         return Agg(CF.key, 0, [{'name': mkstr(name), 'generics': PyVec([mkstr(g) for g in generics]), 'params': PyVec([Agg('tuple', 0, [mkstr(n), t]) for n, t in params]), 'ret_ty': ret, 'body': body}[fl[0]] for fl in CF.variants[0].fields])
     def entry(ex):
-        kind = ex.choose([(True, k) for k in ('result-only', 'param', 'fn-result')]); ex.notes['kind'] = kind
+        kind = ex.choose([(True, k) for k in ('result-only', 'param', 'fn-result', 'crosswise')]); ex.notes['kind'] = kind
         i32, bl, st, un = T('TInt32'), T('TBool'), T('TString'), T('TUnit'); tp = lambda n: T('TParam', mkstr(n))
         unit = E('EPrim', value=Agg(PR.key, PR.vindex('Unit'), [ms.UNIT]), ty=un)
         def let(n, v, body): return E('ELet', name=mkstr(n), value=mkbox(v), body=mkbox(body), ty=un)
@@ -321,6 +322,12 @@ def ob_mono_instances(r, tier, seed, hash_symbolic=False):
             g = fn('mk', ['T'], [], vec(tp('T')), E('EVar', name=mkstr('w'), ty=vec(tp('T'))))
             body = let('a', call('mk', fun([], vec(i32)), [], vec(i32)), let('b', call('mk', fun([], vec(bl)), [], vec(bl)), unit))
             fns = [g]; gname = 'mk'; want = [([], 'TInt32'), ([], 'TBool')]
+        elif kind == 'crosswise':
+            # two type parameters instantiated crosswise: (A, B) = (int32, string) and (string, int32) are two different instances
+            g = fn('first', ['A', 'B'], [('a', tp('A')), ('b', tp('B'))], tp('A'), E('EVar', name=mkstr('a'), ty=tp('A')))
+            one = E('EPrim', value=Agg(PR.key, PR.vindex('Int32'), [1]), ty=i32); sv = E('EVar', name=mkstr('sv'), ty=st)
+            body = let('a', call('first', fun([i32, st], i32), [one, sv], i32), let('b', call('first', fun([st, i32], st), [sv, one], st), unit))
+            fns = [g]; gname = 'first'
         elif kind == 'param':
             g = fn('id', ['T'], [('x', tp('T'))], tp('T'), E('EVar', name=mkstr('x'), ty=tp('T')))
             one = E('EPrim', value=Agg(PR.key, PR.vindex('Int32'), [1]), ty=i32); tr = E('EPrim', value=Agg(PR.key, PR.vindex('Bool'), [True]), ty=bl)
